@@ -1,7 +1,17 @@
 pub mod c03;
+pub mod diffprop;
+pub mod refprops;
 
 use crate::engine::Property;
 
 pub fn all() -> Vec<Box<dyn Property>> {
-    vec![Box::new(c03::C03::new())]
+    vec![
+        Box::new(c03::C03::new()),
+        Box::new(refprops::c05()),
+        Box::new(refprops::c06()),
+        Box::new(refprops::c07()),
+        Box::new(refprops::c08()),
+        Box::new(refprops::c09()),
+        Box::new(refprops::c18()),
+    ]
 }
